@@ -87,12 +87,21 @@ def natives():
     def n_mul_small(it, a, d, m):
         return F(pm.deref(a[0]).l.scale(a[1].v))
 
+    def n_op_code(it, a, d, m):
+        op = pm.deref(a[0])
+        codes = getattr(it, "opcodes", None)
+        if codes is None:
+            it.opcodes = codes = {o["name"]: o["opcode"] for o in airq.get_meta().raw["ops"]}
+        return I(codes[op.variant], "u8")
+
     def n_range(it, a, d, m):
         st = Struct()
         st[0], st[1] = a[0], I(a[0].v + a[1].v, "usize")
         return st
 
     return [
+        (re.compile(r"(?:\w+::)*Operation::op_code"), n_op_code),
+        (re.compile(r"Option::<.*>::unwrap_or"), lambda it, a, d, m: pm.deref(a[0]).fields[0] if pm.deref(a[0]).variant == "Some" else a[1]),
         (re.compile(r"miden_core::utils::range|(?:\w+::)*utils::range"), n_range),
         (re.compile(r"(?:\w+::)*ColMatrix::<Felt>::get"), n_get),
         (re.compile(r"(?:\w+::)*ColMatrix::<Felt>::get_column"), n_get_column),
@@ -218,6 +227,90 @@ def check_opcode(interp, meta, op, V, cov):
                 V.add(f"{tag}: {label}", "inconclusive", detail="solver unknown")
 
 
+def check_no_halt(interp, meta, V, cov):
+    """a trace whose executed cycles leave no room for a HALT row (2^k - 1 cycles + the random row): the
+    block hash table's initial value must be built without panicking, from the END row of the root block"""
+    fn = [n for n in interp.fns if n.endswith("::init_responses") and "decoder/aux_trace/block_hash_table.rs" in n]
+    if len(fn) != 1:
+        V.add("aux-p2:init without a HALT row", "inconclusive", detail=f"init_responses not found uniquely: {fn}")
+        return
+    c = meta.cols
+    NROWS = 8
+    end_bits = {int(k): v for k, v in meta.opcode_consts(meta.ops["End"]["opcode"]).items()}
+    span_bits = {int(k): v for k, v in meta.opcode_consts(meta.ops["Span"]["opcode"]).items()}
+
+    class NoHalt(Columns):
+        """8 rows: SPAN, 5 x NOOP, END, random row - no HALT anywhere"""
+
+        def cell(self, col, row):
+            bits = span_bits if row == 0 else (end_bits if row == NROWS - 2 else {k: 0 for k in end_bits})
+            # (the random row's cells in the op-bit columns are taken as 0: random field elements spell the HALT
+            # opcode only with negligible probability)
+            if col in bits:
+                return F(Lin({}, bits[col] if row < NROWS - 1 else 0))
+            return F(self.it.ctx.var(f"t{row}_{col}"))
+
+        def column(self, col):
+            return [self.cell(col, r) for r in range(NROWS)]
+
+    def n_num_rows(it, a, d, m):
+        return I(NROWS, "usize")
+
+    saved = interp.natives
+    interp.natives = [(re.compile(r"(?:\w+::)*MainTrace::num_rows|(?:\w+::)*ColMatrix::<Felt>::num_rows"), n_num_rows)] + saved
+
+    def make_run(it):
+        it.begin_run(None)
+        mt = Struct()
+        mt[0] = NoHalt(it, {})
+        alphas = [F(it.ctx.var(f"al{i}")) for i in range(8)]
+        it.info["alphas"] = alphas
+        return lambda: it.run_fn(it.fns[fn[0]].parsed(), [Opaque("builder"), Ref({"m": mt}, "m"), alphas])
+    try:
+        paths = interp.explore(make_run)
+    except Unsupported as e:
+        V.add("aux-p2:init without a HALT row", "inconclusive", detail=str(e)[:300])
+        return
+    finally:
+        interp.natives = saved
+    DH = c["HASHER_STATE"]
+    for pi, res in enumerate(paths):
+        tag = f"aux-p2:init without a HALT row#p{pi}"
+        if res.outcome != "ok":
+            path = save_replay(PROP, "aux_p2_no_halt", dict(kind="no_halt", outcome=str(res.value)[:300]))
+            nat = confirm_no_halt()
+            if nat:
+                V.violation(tag, path, f"building the block hash table column panics when the trace has no HALT row ({str(res.value)[:120]}); native: {nat}", key="aux-p2:no-halt")
+            else:
+                V.add(tag, "inconclusive", detail=f"panic path in the encoding ({str(res.value)[:120]}), not reproduced natively")
+            continue
+        ctx = res.ctx
+        al = [x.l for x in res.info["alphas"]]
+        want = al[0]
+        for i in range(4):
+            want = want + ctx.mul(al[2 + i], ctx.var(f"t{NROWS-2}_{DH+i}"))
+        goal = z3.Not(ctx.eq(res.value.l, want))
+        s = z3.Solver()
+        s.set("timeout", 30000)
+        s.add(ctx.side)
+        s.add(res.pc)
+        s.add(goal)
+        r = s.check()
+        cov["queries"] += 1
+        V.add(f"{tag}: the initial value is built from the program hash in the END row of the root block", "discharged" if r == z3.unsat else "inconclusive",
+              detail=None if r == z3.unsat else f"solver {r}")
+
+
+def confirm_no_halt():
+    import masmsym
+    src = "begin push.1 while.true repeat.80 push.1 drop end push.0 end end"  # 255 cycles
+    try:
+        nat = masmsym.native([{"kind": "trace_check", "source": src, "stack": [], "advice": [], "aux": True}], "c03nh")[0]
+    except Exception as e:  # the replay binary dies with the panic of the aux-segment builder
+        return f"`{src}` (255 cycles): building the auxiliary segment panics ({str(e)[:80]})"
+    return None
+
+
 def run(meta, V, cov_out):
     """all 7-bit opcodes that name an operation (incl. control operations)"""
     interp = make_interp()
@@ -225,6 +318,7 @@ def run(meta, V, cov_out):
     ops = sorted(o["opcode"] for o in meta.ops.values())
     for op in ops:
         check_opcode(interp, meta, op, V, cov)
+    check_no_halt(interp, meta, V, cov)
     # a disagreement between the builder's predicate and the AIR's flag is confirmed natively by
     # executing a program that reaches such a row and evaluating the aux boundary assertions
     for name_, path, opname, which, builder_says_one in cov["cands"]:
